@@ -8,12 +8,18 @@ def generic(root, prop, tier, seed, res):
     cf = eng.compile_failures()
     # a context-carrying definition that does not compile refutes "any regex may serve as a context"
     if prop == "C04":
-        for x in cf:
-            if " - (" not in x["spec"] or re.search(r"\(rule \d+ \S.*?\) \((?!do|try|simple)", x["spec"]):
-                pass
-        for x in cf:
-            if has_ctx(x["spec"]):
-                res.violations.append(x)
+        with_ctx = [x for x in cf if has_ctx(x["spec"])]
+        if with_ctx:
+            # is the context the reason? the same definitions without their contexts must compile
+            from sx import strip_contexts
+            ok = compile_specs(eng, "c04_stripped", [strip_contexts(x["spec"]) for x in with_ctx])
+            res.extra["not_compiling_with_context"] = len(with_ctx)
+            res.extra["of_which_compile_without_context"] = len(ok)
+            for i, x in enumerate(with_ctx):
+                if i in ok:
+                    y = dict(x)
+                    y["what"] = "definition compiles once its right contexts are removed, but not with them: " + x["what"][:300]
+                    res.violations.append(y)
     # variants of one definition (printings / sugar / equivalent rewrites) must all compile if one does
     if prop in ("C02", "C10", "C16"):
         for b in eng.batches:
@@ -33,6 +39,51 @@ def generic(root, prop, tier, seed, res):
                 y["what"] = "well-formed definition rejected by a scoping diagnostic: " + x["what"][:300]
                 res.violations.append(y)
     return eng
+
+
+def compile_specs(eng, name, specs, rounds=3):
+    """Compile the given specs (s-expressions) as independent lexers in one binary; return the set of
+    indices that expand and compile."""
+    from vcheck import Batch
+    alive = list(range(len(specs)))
+    for rnd in range(rounds):
+        if not alive:
+            return set()
+        bname = "%s_r%d" % (name, rnd)
+        specfile = os.path.join(eng.work, bname + ".spec")
+        with open(specfile, "w") as f:
+            for i in alive:
+                f.write("multi: %d\tminimal\t0\t0\t%s\n" % (i, specs[i]))
+        out = os.path.join(eng.work, "src", "bin", bname + ".rs")
+        rc, o, e, _ = run([eng.specgen, "replay", "--spec-file", specfile, "--name", bname, "--out", out], env=eng.env)
+        if rc != 0:
+            raise Inconclusive("specgen replay failed: " + e[-500:])
+        with open(out + ".map.json") as f:
+            m = json.load(f)
+        b = Batch(bname, "replay", "replay", [0], {})
+        b.map = m
+        rc, outp, err, to = run(["cargo", "build", "--offline", "--message-format=json", "--bin", bname], cwd=eng.work, env=eng.env, timeout=3600)
+        failed = set()
+        built = False
+        for line in outp.splitlines():
+            if not line.startswith("{"):
+                continue
+            try:
+                msg = json.loads(line)
+            except ValueError:
+                continue
+            if msg.get("reason") == "compiler-artifact" and msg.get("target", {}).get("name") == bname and msg.get("executable"):
+                built = True
+            if msg.get("reason") == "compiler-message" and msg.get("message", {}).get("level") == "error":
+                ent = eng._attribute(b, msg["message"])
+                if ent is not None:
+                    failed.add(alive[ent["variant"]])
+        if built and not failed:
+            return set(alive)
+        if not failed:
+            return set()
+        alive = [i for i in alive if i not in failed]
+    return set()
 
 
 def has_ctx(spec_text):
@@ -101,7 +152,7 @@ def check_c11(root, prop, tier, seed, res):
         if r.get("t") == "V":
             res.violations.append(r["v"])
     # class expressions through the real macro
-    eng = run_generic(root, prop, tier, seed, res, cfg=CLASS_CFG, extra_props=("C02", "C01", "C04", "C07", "C09"))
+    eng = run_generic(root, prop, tier, seed, res, cfg=CLASS_CFG, extra_props=("C02", "C04"))
     for x in eng.compile_failures():
         res.violations.append(x)
     res.coverage["evaluations"] += S["operations"]
@@ -160,7 +211,7 @@ def ranges_subset(obs, allowed):
 def check_c13(root, prop, tier, seed, res):
     import vbuiltin
     from vcheck import CARGO_TOML
-    shapes = "ab" if tier == "quick" else "abcd"
+    shapes = "abd" if tier == "quick" else "abcd"
     eng = GenericEngine(root, prop, tier, seed)
     eng.prepare()
     src = vbuiltin.gen_source(shapes, vbuiltin.table_sizes())
@@ -222,7 +273,7 @@ def check_c13(root, prop, tier, seed, res):
     res.coverage["evaluations"] = evals
     res.coverage["distinct_nontrivial"] = pairs
     res.coverage["exhaustive"] = True
-    res.coverage["rule"] = ("for each of the 20 built-in names and each generated membership-test shape (a: `$$B = t` per-range accept arms; b: `$$B '!' = t` guard chain or binary-search table; thorough adds c: the other lookup shape forced through class algebra, d: `'!' > $$B` right-context function) a one-rule lexer is expanded by the real macro and run on ALL 1,112,064 scalar values; oracle: the std / unicode-xid predicate. Non-trivial = (built-in, shape) pairs swept.")
+    res.coverage["rule"] = ("for each of the 20 built-in names and each generated membership-test shape (a: `$$B = t` per-range accept arms; b: `$$B '!' = t` guard chain or binary-search table; d: `'!' > $$B` right-context function; thorough adds c: the other lookup shape forced through class algebra) a one-rule lexer is expanded by the real macro and run on ALL 1,112,064 scalar values; oracle: the std / unicode-xid predicate. Non-trivial = (built-in, shape) pairs swept.")
     res.coverage["samples"] = samples
     res.extra["per_builtin_shape"] = per
     res.extra["toolchain"] = toolchain()
@@ -251,6 +302,7 @@ C12_CFG = dict(
     parts=[("multi", "multi", 60, 600, 6, TINY, TINY_T),
            ("bigclass", "base", 60, 800, 10, TINY, TINY_T),
            ("rctx", "base", 60, 800, 20, TINY, TINY_T),
+           ("class", "base", 60, 600, 20, TINY, TINY_T),
            ("realistic", "base", 16, 160, 2, TINY, TINY_T),
            ("rulesets", "base", 60, 800, 20, TINY, TINY_T),
            ("munch", "base", 60, 1600, 20, TINY, TINY_T),
